@@ -7,8 +7,8 @@ primitives, flag <-> optional-field coupling, and the 256-element NumberSet wind
 from rdv.core import (CheckBroken, Origins, Pos, call_matches, callee_res, natural_loops, norm_path, primary_edges,
                       strip_generics, switch_edges, term_has, term_leaves, term_str)
 
-CONFIGS = ['default']
-THOROUGH_CONFIGS = ['security']
+CONFIGS = ['default', 'security']     # the security arms are not compiled by the default test suite: decide them on every run
+THOROUGH_CONFIGS = []
 LEVEL = 'other'
 
 
@@ -296,7 +296,7 @@ def run(rep, facts, tier):
             okm = ogm.of_operand(st['rv']['ops'][f.index('rev_at_bit')], bb, si) == ('field', 'num_bits', ('param', 1)) and ogm.of_operand(st['rv']['ops'][f.index('at_bit')], bb, si) == ('const', 'int', 0)
     rep.check(ok and okm, 'R14.4', 'NumberSetIter/bounded', 'iteration runs over bits [0, num_bits)', 'NumberSet iteration is not bounded by [0, num_bits): members outside the window could be reported', it[0].where())
 
-    if tier == 'thorough' and 'security' in facts:
+    if 'security' in facts:
         fs = facts['security']
         n2 = 0
         for b in fs.bodies:
@@ -324,7 +324,7 @@ def run(rep, facts, tier):
     from rules import numberset as _ns
     _ns.rule_from_base_and_set(rep, fx, 'R14.11')
     rule_14_12(rep, fx)
-    if tier == 'thorough' and 'security' in facts:
+    if 'security' in facts:
         default_types = set(strip_generics(b.impl_self or '') for b in fx.bodies if b.name == 'len_serialized' and b.impl_self)
         rule_14_6(rep, facts['security'], pre='security:', skip=default_types)
 
